@@ -22,9 +22,9 @@ RULE = ("one fitted model per case (every family/profile; baselines of 365 days 
         "all NaN, absent, zeros, negative}.  distinct_nontrivial = distinct (family, span, alteration) pairs whose two runs share at least one predicted row.")
 ASSUMPTIONS = ["values compared on the intersection of rows where both runs produced a finite prediction; which rows get a prediction is compared too: everywhere for the "
                "hourly families, on days with usable usage in both runs for the daily family (a day without usage gets no prediction: C07), not for billing",
-               "billing: the observed column is altered on the billing reads; the same read calendar is kept"]
+               "billing: the observed column is altered on the billing reads; the same read calendar is kept", "from_series entry: the first and last day of either run are not compared (the feed is cut to the span of the meter readings, so they may be partly spanned days)"]
 REQUIRED_REACH = {"pair.compared": 60, "pair.rows": 5000, "baseline.covers_all_months_and_weekdays": 6, "alteration.absent": 6, "alteration.all_nan": 6,
-                  "span.with_dst_change": 4, "span.with_weather_gaps": 4, "pair.presence_compared": 40, "pair.presence_rows": 5000, "span.daily_from_series_hourly_temperature": 2, "span.with_duplicated_timestamps": 4}
+                  "span.with_dst_change": 4, "span.with_weather_gaps": 4, "pair.presence_compared": 40, "pair.presence_rows": 5000, "span.daily_from_series_hourly_temperature": 2, "span.daily_from_series_interval_usage_with_weather_gaps": 2, "span.from_series_weather_gaps_over_local_midnight": 2, "span.with_duplicated_timestamps": 4}
 
 VIOL = []
 
@@ -63,11 +63,18 @@ def alter(rng, df, how, billing=False):
         o[rng.choice(idx, size=max(1, int(0.2 * len(idx))), replace=False)] = 0.0
     elif how == "negative":
         o = -np.abs(o)
+    elif how == "nan_where_weather_missing":
+        # the meter and the weather station were down at the same time
+        w = ~np.isfinite(d["temperature"].to_numpy(dtype=float))
+        if not w.any():
+            w = np.zeros(len(o), bool)
+            w[rng.choice(len(o), size=max(1, len(o) // 50), replace=False)] = True
+        o[w] = np.nan
     d["observed"] = o
     return d
 
 
-ALTS = ["x0.1", "x10", "shuffled", "nan30", "nan_runs", "all_nan", "absent", "zeros", "negative"]
+ALTS = ["x0.1", "x10", "shuffled", "nan30", "nan_runs", "all_nan", "absent", "zeros", "negative", "nan_where_weather_missing"]
 COLS = {"daily": ["predicted", "predicted_unc", "heating_load", "cooling_load", "model_split", "model_type"],
         "billing": ["predicted", "predicted_unc", "heating_load", "cooling_load", "model_split", "model_type"],
         "hourly": ["predicted"], "caltrack": ["predicted"]}
@@ -99,14 +106,36 @@ def run_case(spec):
         hidx = pd.date_range(idx[0].tz_convert("UTC"), (idx[-1] + pd.Timedelta(days=1)).tz_convert("UTC"), freq="h", inclusive="left").tz_convert(idx.tz)
         pos = np.searchsorted(idx.asi8 if idx.unit == "ns" else idx.as_unit("ns").asi8, hidx.asi8 if hidx.unit == "ns" else hidx.as_unit("ns").asi8, side="right") - 1
         hT = frame["temperature"].to_numpy(dtype=float)[pos] + np.round(3 * np.sin(2 * np.pi * (hidx.hour.values - 15) / 24), 2)
+        # short weather-station outages (the same hours in every run of the pair), some of them over local midnight; every day keeps well over
+        # half of its readings
+        gr = np.random.default_rng([spec["seed"], 505, spec["n"]])
+        for a in gr.choice(np.arange(30, len(hT) - 30), size=max(4, len(hT) // 400), replace=False):
+            hT[a:a + int(gr.integers(1, 5))] = np.nan
+        mid = np.flatnonzero(hidx.hour.values == 0)
+        for a in gr.choice(mid[2:-2], size=max(2, len(mid) // 25), replace=False):
+            hT[a - 1:a + 2] = np.nan
+        I.reach("span.from_series_weather_gaps_over_local_midnight")
         temp = pd.Series(hT, index=hidx, name="temperature")
         meter = frame["observed"].rename("observed") if "observed" in frame.columns else None
         return em.DailyReportingData.from_series(meter, temp, is_electricity_data=True)
+
+    def ami_entry(frame):
+        """daily family fed with interval data: HOURLY usage + HOURLY temperature (with outages) through from_series"""
+        import opendsm.eemeter as em
+        meter = frame["observed"].rename("observed") if "observed" in frame.columns else None
+        return em.DailyReportingData.from_series(meter, frame["temperature"].rename("temperature"), is_electricity_data=True)
     if fam.kind == "daily":
-        spans = spans + [("partial/from_series-hourly-temperature", "2019-01-15" if tz != "Australia/Sydney" else "2019-07-15", 250)]
+        spans = spans + [("partial/from_series-hourly-temperature", "2019-01-15" if tz != "Australia/Sydney" else "2019-07-15", 250),
+                         ("partial/from_series-hourly-usage-and-temperature", "2019-02-10" if tz != "Australia/Sydney" else "2019-08-10", 120)]
     for sname, start, days in spans:
-        make_rd = series_entry if "from_series" in sname else fam.reporting_data
+        make_rd = ami_entry if "hourly-usage" in sname else series_entry if "from_series" in sname else fam.reporting_data
         base = fam.reporting_frame(rng, tz, start, days, with_observed=True)
+        if "hourly-usage" in sname:
+            base = FT.synth_hourly(tz=tz, start=start, days=days, seed=rng)[["temperature", "observed"]]
+            tcol = base.columns.get_loc("temperature")
+            for a in rng.choice(np.arange(30, len(base) - 30), size=max(6, len(base) // 200), replace=False):
+                base.iloc[a:a + int(rng.integers(1, 5)), tcol] = np.nan               # short weather-station outages
+            I.reach("span.daily_from_series_interval_usage_with_weather_gaps")
         if "from_series" in sname:
             I.reach("span.daily_from_series_hourly_temperature")
         if fam.kind == "billing":
@@ -163,13 +192,18 @@ def run_case(spec):
                     "predict on the %s set with observed %s raised %s: %s" % (sname, how, type(e).__name__, str(e)[:160]), family=spec["family"], span=sname)
                 continue
             common = ref.index.intersection(got.index)
+            if "from_series" in sname:
+                # from_series cuts the weather feed to the span of the meter readings it is given: the first and the last day of either run may be
+                # partly spanned days of another length (the span of the reporting period is an input, not a usage value); they are not compared
+                edge = [x for r_ in (ref, got) if len(r_) for x in (r_.index[0], r_.index[-1])]
+                common = common.difference(pd.DatetimeIndex(edge))
             a, b = ref.loc[common], got.loc[common]
             fa, fb = np.isfinite(a["predicted"].to_numpy(dtype=float)), np.isfinite(b["predicted"].to_numpy(dtype=float))
             both = fa & fb
             # which predictions are produced: the hourly families predict every supplied hour whatever the usage column holds; the
             # daily family predicts a day iff it has usable usage (C07), so presence is compared on the days whose usage is usable
             # (finite, or the column absent) in both runs.  Billing presence follows the read calendar and is left to C07/C19.
-            if fam.kind in ("hourly", "caltrack", "daily"):
+            if fam.kind in ("hourly", "caltrack", "daily") and "hourly-usage" not in sname:
                 if fam.kind == "daily":
                     def usable(frame):
                         frame = frame[~frame.index.duplicated(keep="first")]          # of duplicated timestamps the first record counts (C17)
